@@ -24,7 +24,7 @@ RULE = (
 ASSUMPTIONS = [
     "Hamiltonian coefficients are non-zero (|c| >= 1e-2): the derivative construction divides by the coefficient",
     "the evolution circuit of a constant term is the empty circuit, so constants contribute the identity (no global phase) to the product",
-    "dense 2^n reference, n <= 4",
+    "dense 2^n reference, n <= 4; registers up to 12 (14) qubits through a state-vector reference",
 ]
 
 PAIRS = [(1.0, 0.3), (-1.7, 1.1), (0.5, -2.2), (2, 0.0), (-0.31, 3.9)]
@@ -202,6 +202,71 @@ def o_deriv(spec):
     return {"classes": ["steps:%d" % ns] + (["constant_term"] if any(not tm["ops"] for tm in spec["terms"]) else []), "nontrivial": ns >= 2}
 
 
+# ---------------------------------------------------------------- wide registers (state-vector oracle)
+# exp(-i t c P) = cos(tc) 1 - i sin(tc) P for a Pauli string P, so the action on a state vector is available without
+# any 2^n x 2^n matrix: registers of up to 12 qubits, terms acting on high-numbered qubits with gaps.
+
+
+def _apply_string(ops, state, n):
+    out = state
+    for q, p in ops:
+        out = ref.embed_apply(ref.PAULI[p], [q], n, out)
+    return out
+
+
+def _apply_exp(ops, angle, state, n):
+    return np.cos(angle) * state - 1j * np.sin(angle) * _apply_string(ops, state, n)
+
+
+@st.composite
+def wide_cases(draw, tier):
+    hi = 12 if tier == "quick" else 14
+    terms = []
+    for _ in range(draw(st.integers(1, 3))):
+        qs = draw(st.lists(st.one_of(st.integers(0, hi - 1), st.integers(7, hi - 1)), unique=True, min_size=1, max_size=4))
+        mag = draw(st.one_of(st.floats(1e-2, 2, allow_nan=False), st.sampled_from([1.0, 0.5])))
+        terms.append({"ops": [[q, draw(st.sampled_from("XYZ"))] for q in sorted(qs)], "c": mag * draw(st.sampled_from([-1, 1]))})
+    return {"terms": terms, "t": draw(st.floats(-2, 2, allow_nan=False)), "steps": draw(st.integers(1, 2)),
+            "seed": draw(st.integers(0, 10 ** 6)), "single": draw(st.booleans())}
+
+
+def o_wide(spec):
+    from orquestra.quantum.evolution import time_evolution, time_evolution_for_term
+    from orquestra.quantum.operators import PauliSum
+
+    terms = spec["terms"][:1] if spec["single"] else spec["terms"]
+    n = 1 + max(q for t in terms for q, _ in t["ops"])
+    t, steps = spec["t"], (1 if spec["single"] else spec["steps"])
+    if spec["single"]:
+        circ = must(lambda: time_evolution_for_term(pgen.build_term(terms[0]), t), "time_evolution_for_term")
+    else:
+        H = PauliSum([pgen.build_term(x) for x in terms])
+        circ = must(lambda: time_evolution(H, t, n_steps=steps), "time_evolution")
+    require(circ.n_qubits <= n, lambda: f"circuit width {circ.n_qubits} exceeds the operator's width {n}")
+    rs = np.random.RandomState(spec["seed"])
+    for trial in range(2):
+        if trial == 0:
+            psi = rs.normal(size=2 ** n) + 1j * rs.normal(size=2 ** n)
+            psi /= np.linalg.norm(psi)
+        else:
+            psi = np.zeros(2 ** n, dtype=complex)
+            psi[rs.randint(2 ** n)] = 1
+        got = psi
+        for op in circ.operations:
+            q = tuple(op.qubit_indices)
+            require(len(set(q)) == len(q) == op.gate.num_qubits and all(0 <= i < n for i in q), lambda: f"operation {op} outside the {n}-qubit support of the operator")
+            got = ref.embed_apply(ref.npm(op.gate.matrix), q, n, got)
+        want = psi
+        for _ in range(steps):
+            for x in terms:
+                want = _apply_exp(x["ops"], t / steps * x["c"], want, n)
+        require(ref.close(got, want, 1e-9), lambda: f"{'term' if spec['single'] else 'sum'} on {n} qubits: the circuit's action on a state differs from the product of exp(-i t c P) factors, max|d|={ref.maxdiff(got, want):.3g}")
+    cl = ["width:%d" % n]
+    if any(q >= 8 for x in terms for q, _ in x["ops"]) and any(len(x["ops"]) >= 2 for x in terms):
+        cl.append("multi_qubit_term_reaching_qubit>=8")
+    return {"classes": cl, "nontrivial": "multi_qubit_term_reaching_qubit>=8" in cl}
+
+
 SUBCHECKS = [
     SubCheck("term_exhaustive", o_term, enumerate=enum_terms, exhaustive=True, shards=(4, 4),
              rule="all Pauli strings on <=3 qubits x 5 (c, t) pairs: circuit matrix == expm(-i t c P)"),
@@ -214,6 +279,9 @@ SUBCHECKS = [
     SubCheck("derivative", o_deriv, strategy=ham_cases, examples=(100, 500), shards=(4, 12),
              rule="factor-weighted expectation over derivative circuits == analytic d/dt of the expectation"),
 ]
+SUBCHECKS.append(SubCheck("wide_terms", o_wide, strategy=wide_cases, examples=(150, 600), shards=(4, 12),
+                          rule="terms and sums acting on qubits up to 11 (13 thorough) with gaps: the circuit's action on random and basis states == product of cos(tc) - i sin(tc) P factors; non-trivial = a multi-qubit term reaching qubit >= 8"))
+SUBCHECKS[5].expected_classes = ["multi_qubit_term_reaching_qubit>=8"]
 SUBCHECKS[1].expected_classes = ["symbolic_time", "weight:1", "weight:2", "weight:3", "weight:4", "constant"]
 SUBCHECKS[3].expected_classes = ["steps:1", "steps:2", "steps:3", "steps:4", "constant_term", "symbolic_time"]
 SUBCHECKS[4].expected_classes = ["steps:1", "steps:2", "steps:3", "steps:4", "constant_term"]
